@@ -9,6 +9,7 @@ mod gen;
 mod gen2;
 mod gen3;
 mod gen4;
+mod gen5;
 mod mach;
 mod replay;
 mod rng;
